@@ -104,7 +104,8 @@ class Domain:
         if self._user_volume is None:
             return self._get_volume(params, device=device)
         else:
-            return self._user_volume(params, device=device)
+            # same form as the built-in volumes: one value per row
+            return self._user_volume(params, device=device).reshape(-1, 1)
 
     def __add__(self, other):
         """Creates the union of the two input domains.
